@@ -15,6 +15,8 @@ func main() {
 		seqMain(os.Args[2:])
 	case "loctext":
 		locTextMain(os.Args[2:])
+	case "region":
+		regionMain(os.Args[2:])
 	default:
 		fmt.Fprintf(os.Stderr, "unknown driver %q\n", os.Args[1])
 		os.Exit(2)
